@@ -175,3 +175,24 @@ var (
 //
 //go:noinline
 func ReadVarHidden() Hidden { return varHidden }
+
+// Digest takes and returns fixed-size byte arrays by value (digests, raw ids) next to a byte slice.
+//
+//go:noinline
+func Digest(id [16]byte, data []byte) [16]byte {
+	if len(data) > 1<<20 {
+		id[0]++
+	}
+	id[15] ^= byte(len(data))
+	return id
+}
+
+// Sum is a method with a by-value byte-array result.
+//
+//go:noinline
+func (t *T) Sum(data []byte) [4]byte {
+	if len(data) > 1<<20 {
+		return [4]byte{9}
+	}
+	return [4]byte{byte(t.K), byte(len(data)), 3, 4}
+}
